@@ -631,3 +631,42 @@ Proof.
 Qed.
 
 End WithTables.
+
+(* ---- the specification itself: a parameter setter changes its own parameter and nothing else ------------- *)
+
+Lemma sstep_param a n x p :
+  find_param n = Some p ->
+  sstep a (n, x) = if legal n x then (set_val a n (Some x), true) else (a, false).
+Proof.
+  intros H. unfold sstep. cbn [fst snd].
+  destruct (String.eqb n "prefix") eqn:E1; [apply String.eqb_eq in E1; subst n; discriminate|].
+  destruct (String.eqb n "reset_prefix") eqn:E2; [apply String.eqb_eq in E2; subst n; discriminate|].
+  destruct (String.eqb n "media") eqn:E3; [apply String.eqb_eq in E3; subst n; discriminate|].
+  destruct (String.eqb n "clear") eqn:E4; [apply String.eqb_eq in E4; subst n; discriminate|].
+  destruct (String.eqb n "is_session_tagged") eqn:E5; [apply String.eqb_eq in E5; subst n; discriminate|].
+  destruct (String.eqb n "reset_reliable") eqn:E6; [apply String.eqb_eq in E6; subst n; discriminate|].
+  destruct (String.eqb n "reset_rejoin") eqn:E7; [apply String.eqb_eq in E7; subst n; discriminate|].
+  now rewrite H.
+Qed.
+
+Lemma setter_own_parameter a n x p :
+  find_param n = Some p -> legal n x = true ->
+  let a' := fst (sstep a (n, x)) in
+  snd (sstep a (n, x)) = true
+  /\ expected_entry a' p = [(p_name p, render (p_kind p) (sp_tagged a) x)]
+  /\ (forall q, In q spec_params -> q <> p -> expected_entry a' q = expected_entry a q)
+  /\ sp_prefix a' = sp_prefix a /\ sp_media a' = sp_media a /\ sp_tagged a' = sp_tagged a.
+Proof.
+  intros H HL. rewrite (sstep_param a n x p H), HL. cbn [fst snd].
+  apply find_param_some in H. destruct H as [Hp <-].
+  repeat split; auto.
+  - unfold expected_entry, set_val. cbn [sp_vals sp_tagged]. now rewrite String.eqb_refl.
+  - intros q Hq Hne. unfold expected_entry, set_val. cbn [sp_vals sp_tagged].
+    destruct (String.eqb (p_setter q) (p_setter p)) eqn:E; auto.
+    apply String.eqb_eq in E. exfalso. apply Hne.
+    apply (NoDup_map_inj p_setter spec_params); auto. apply spec_setters_distinct.
+Qed.
+
+Lemma rejected_changes_nothing a n x p :
+  find_param n = Some p -> legal n x = false -> sstep a (n, x) = (a, false).
+Proof. intros H HL. now rewrite (sstep_param a n x p H), HL. Qed.
